@@ -11,9 +11,18 @@ def _matches(tags, chosen):
     return sum(1 for t in tags.split(",") if t in ch)
 
 
+def _cpair_as_pair(f):
+    # cpair <kind> <limit> <passes> <cfg> <items> <chosen> <cancel> <eof>: tags/chosen as comparable tokens
+    tags = ",".join(i[1:] or "_" for i in f[5].split(",") if i.startswith("e")) or "-"
+    chosen = "-" if f[6] == "-" else ",".join(t[1:] or "_" for t in f[6].split(","))
+    return [f[0], "content-" + f[1], f[2], f[3], tags, chosen] + f[7:]
+
+
 def key_fn(case, obs, verdict):
     # pair <kind> <limit> <passes> <tags> <chosen> <cancel>
     f = case.split(" ")
+    if f[0] == "cpair" and len(f) >= 9:
+        f = _cpair_as_pair(f)
     o = obs.split(" ")
     kind = f[1]
     filt = "no-entries" if f[4] == "-" else "nofilter" if f[5] == "-" else ("filter-matches-nothing" if _matches(f[4], f[5]) == 0 else "filter")
